@@ -23,3 +23,12 @@ func VerifCreateChallenge(context, nonce *big.Int, contributions []*big.Int, iss
 }
 
 func VerifSmallPrimes() ([]uint8, *big.Int) { return common.SmallPrimes, common.SmallPrimesProduct }
+
+func VerifSetGlobalCPRNG(seed *[32]byte) error { return common.VerifSetGlobalCPRNG(seed) }
+
+func VerifModInverse(a, n *big.Int) (*big.Int, bool) { return common.ModInverse(a, n) }
+
+func VerifModPow(x, y, m *big.Int) (*big.Int, error) { return common.ModPow(x, y, m) }
+
+// RevocationAttrIndex exposes ProofD.revocationAttrIndex (map-order dependent).
+func (p *ProofD) VerifRevocationAttrIndex() int { return p.revocationAttrIndex() }
